@@ -1,25 +1,46 @@
-"""Loop-invariant proofs of the italics normalisation passes of the SCC reader
-(pycaption.scc.specialized_collections._format_italics), shared by C05 and C11.
+"""Loop-invariant proofs of the italics normalisation of the SCC reader
+(pycaption.scc.specialized_collections._format_italics and its passes), shared by C05 and C11.
 
-Nodes are symbolic heap objects (_InstructionNode: _type, text, position); sequences are z3 Seqs of
-node references; the properties are phrased with finite automata folded over node types:
+Nodes are symbolic heap objects (_InstructionNode: _type immutable, text, position opaque); lists
+are z3 Seqs of node references of ANY length.  The properties are phrased with folds over a node
+sequence, each defined by recursion on the last element (snoc), F([]) = init, F(s+[x]) = step(F(s), x):
 
-  ALT : italics nodes alternate ON, OFF, ON, ... beginning with ON
-  SEG : the same, and no CHANGE_POSITION node occurs while italics are on (q0 = closed, q1 = open)
+  LAST(s) : 1 if the last italics command in s is ON, else 0         (what a decoder's italics flag is)
+  ALT(s)  : automaton: italics nodes alternate ON, OFF, ON, ... beginning with ON   (Q0 closed, Q1 open, BAD)
+  SEG(s)  : ALT and additionally no CHANGE_POSITION node while open
+  M(s)    : the sequence of (text node, italic?) pairs of the non-empty text nodes of s, italic? = LAST
+            of the nodes before it  -- "which characters are italic"
 
-Each fold is defined by recursion on the last element (snoc): F([]) = q0, F(s + [x]) = step(F(s), type(x)).
+Theorem (format_italics, for every input list):  SEG(out) = Q0  (every ON is closed by an OFF before
+the next repositioning and before the end, ON / OFF alternate)  and  M(out) = M(in)  (exactly the text
+sent while italics were on is italic, text order kept, no non-empty text lost).
+
+Each pass is proved against its own contract with an inductive loop invariant; _format_italics is
+then proved modularly from the seven contracts (a call site sees only the callee's contract).
+Sequence-theory facts z3 does not find by itself are added as *lemma instances* (valid in the
+theory of sequences, listed in the evidence):  prefix(s, i+1) = prefix(s, i) + [s[i]]  and
+prefix(s, len s) = s.
 """
+import ast
+
 import z3
 
 from pycaption.scc import specialized_collections as SC
 from pycaption.scc.specialized_collections import _InstructionNode
-from pyvc import heap
-from pyvc.heap import SymList, SymRef, declare, loop_rule, SEQ, INT, heap_array, as_seq
+from pyvc import heap, sym
+from pyvc.heap import SymList, SymRef, declare, loop_rule, SEQ, INT, heap_array, as_seq, NONEMPTY, NONE_REF, EMPTY_TEXT
 from pyvc.sym import cur
 
-declare(_InstructionNode, _type="int", text="id", position="id")
+declare(_InstructionNode, _type="int!", text="text", position="id")
 TEXT, BREAK, ON, OFF, POS = 0, 1, 2, 3, 4
 Q0, Q1, BAD = 0, 1, 2
+MOD = "pycaption.scc.specialized_collections:"
+
+LAST = z3.Function("LAST", SEQ, INT)
+ALT = z3.Function("ALT", SEQ, INT)
+SEG = z3.Function("SEG", SEQ, INT)
+M = z3.Function("M", SEQ, SEQ)
+EMPTY = z3.Empty(SEQ)
 
 
 def setup(interp):
@@ -28,6 +49,17 @@ def setup(interp):
 
 def ty(p, ref):
     return z3.Select(heap_array(p, _InstructionNode, "_type"), ref)
+
+
+def text0(p, ref):
+    """the text of a node at function entry (no pass before the last one stores to .text)"""
+    heap_array(p, _InstructionNode, "text")
+    return z3.Select(p.ghost["heap0"][("_InstructionNode", "text")], ref)
+
+
+def nonempty_text(p, x):
+    t = text0(p, x)
+    return z3.And(ty(p, x) == TEXT, t != NONE_REF, t != EMPTY_TEXT, NONEMPTY(t))
 
 
 def alt_step(q, t):
@@ -43,38 +75,351 @@ def seg_step(q, t):
                              z3.If(t == POS, z3.If(q == Q0, Q0, BAD), q))))
 
 
-def well_typed(p, t):
-    j = z3.Int("j_")
-    p.assume(z3.ForAll([j], z3.Implies(z3.And(0 <= j, j < z3.Length(t)),
-                                       z3.And(ty(p, t[j]) >= 0, ty(p, t[j]) <= 4))))
+def last_step(l, t):
+    return z3.If(t == ON, 1, z3.If(t == OFF, 0, l))
+
+
+def base_axioms(p):
+    p.assume(z3.And(LAST(EMPTY) == 0, ALT(EMPTY) == Q0, SEG(EMPTY) == Q0, M(EMPTY) == EMPTY))
+
+
+def snoc(p, s, x):
+    """the defining equations of the four folds at s + [x]"""
+    sx = z3.Concat(s, z3.Unit(x))
+    t = ty(p, x)
+    return z3.And(LAST(sx) == last_step(LAST(s), t),
+                  ALT(sx) == alt_step(ALT(s), t),
+                  SEG(sx) == seg_step(SEG(s), t),
+                  M(sx) == z3.If(nonempty_text(p, x), z3.Concat(M(s), z3.Unit(2 * x + LAST(s))), M(s)),
+                  z3.Or(LAST(s) == 0, LAST(s) == 1))
+
+
+def lemma(s):
+    """open <=> the last italics command is ON, for well-formed sequences.  Valid for every sequence
+    by induction on snoc; base and step are discharged in every run (contract `open_iff_last_on`)."""
+    return z3.And(z3.Implies(SEG(s) != BAD, (SEG(s) == Q1) == (LAST(s) == 1)),
+                  z3.Implies(ALT(s) != BAD, (ALT(s) == Q1) == (LAST(s) == 1)),
+                  z3.Or(LAST(s) == 0, LAST(s) == 1),
+                  z3.Or(SEG(s) == Q0, SEG(s) == Q1, SEG(s) == BAD), z3.Or(ALT(s) == Q0, ALT(s) == Q1, ALT(s) == BAD))
+
+
+def prefix(s, i):
+    return z3.SubSeq(s, 0, i)
+
+
+def prefix_lemma(s, i):
+    """valid in the theory of sequences for 0 <= i < len(s)"""
+    return prefix(s, i + 1) == z3.Concat(prefix(s, i), z3.Unit(s[i]))
+
+
+def instantiate(S, inp):
+    """definitions needed after one more iteration: the folds at the new prefix and at every append"""
+    p = S.p
+    if S.havoc_locals is not None and S.i_is_successor:
+        k = S.i - 1
+        p.assume(prefix_lemma(inp.t, k))
+        p.assume(snoc(p, prefix(inp.t, k), inp.t[k]))
+    for s, x in p.ghost.get("appends", []):
+        p.assume(snoc(p, s, x))
+        p.assume(lemma(z3.Concat(s, z3.Unit(x))))
+    p.assume(prefix(inp.t, 0) == EMPTY)
+    p.assume(lemma(prefix(inp.t, S.i)))
+    for v in S.frame.locals.values():
+        if isinstance(v, (SymList, list)) and v is not inp:
+            try:
+                p.assume(lemma(as_seq(v)))
+            except Exception:
+                pass
+
+
+def finish(p, inp):
+    """at loop exit: prefix(inp, n) = inp, and the folds at the appends made after the loop"""
+    p.assume(prefix(inp.t, z3.Length(inp.t)) == inp.t)
+    p.assume(lemma(inp.t))
+    for s, x in p.ghost.get("appends", []):
+        p.assume(snoc(p, s, x))
+        p.assume(lemma(z3.Concat(s, z3.Unit(x))))
+
+
+def new_input(name="collection"):
+    p = cur()
+    p.ghost["symbolic_heap"] = True
+    base_axioms(p)
+    inp = SymList(z3.Const(name, SEQ), _InstructionNode)
+    return p, inp
+
+
+def same_meaning(out, pre):
+    return [("same_text_is_italic", M(out) == M(pre)), ("same_final_italics_state", LAST(out) == LAST(pre))]
+
+
+def zb(v):
+    return sym.zbool(v)
+
+
+# --------------------------------------------------------------------------------------- the passes
+
+def skip_initial_off(c):
+    """_skip_initial_italics_off_nodes: meaning preserved (an OFF before the first ON changes nothing)"""
+    p, inp = new_input()
+
+    def inv(S):
+        instantiate(S, inp)
+        out, pre = as_seq(S.local("new_collection")), prefix(inp.t, S.i)
+        return same_meaning(out, pre) + [("no_on_seen_means_italics_off", z3.Or(zb(S.local("can_add_italics_off_nodes")), LAST(pre) == 0))]
+    c.interp.loop_hooks[(MOD + "_skip_initial_italics_off_nodes", 1)] = loop_rule(
+        "initial_off.loop", inv, locals_={"new_collection": ("seq", _InstructionNode), "can_add_italics_off_nodes": ("bool", None)})
+    r = c.call(SC._skip_initial_italics_off_nodes, inp, compare=False)
+    finish(p, inp)
+    c.ensure("same_text_is_italic", M(as_seq(r)) == M(inp.t))
+    c.ensure("same_final_italics_state", LAST(as_seq(r)) == LAST(inp.t))
+
+
+def skip_empty_text(c):
+    """_skip_empty_text_nodes: only empty text nodes are dropped"""
+    p, inp = new_input()
+
+    def inv(S):
+        instantiate(S, inp)
+        return same_meaning(as_seq(S.local("__comp")), prefix(inp.t, S.i))
+    c.interp.loop_hooks[(MOD + "_skip_empty_text_nodes", ("comp", 1))] = loop_rule(
+        "empty_text.loop", inv, locals_={"__comp": ("seq", _InstructionNode)})
+    r = c.call(SC._skip_empty_text_nodes, inp, compare=False)
+    finish(p, inp)
+    c.ensure("same_text_is_italic", M(as_seq(r)) == M(inp.t))
+    c.ensure("same_final_italics_state", LAST(as_seq(r)) == LAST(inp.t))
 
 
 def skip_redundant(c):
-    """_skip_redundant_italics_nodes: for ANY input list, the italics nodes of the output alternate
-    ON, OFF, ON, ... beginning with ON; non-italics nodes are all kept (length accounting)"""
-    p = cur()
-    inp = SymList(z3.Const("collection", SEQ), _InstructionNode)
-    n = z3.Length(inp.t)
-    well_typed(p, inp.t)
-    ALT = z3.Function("ALT", SEQ, INT)
-    p.assume(ALT(z3.Empty(SEQ)) == Q0)
-
-    def snoc(s, x):
-        return ALT(z3.Concat(s, z3.Unit(x))) == alt_step(ALT(s), ty(p, x))
+    """_skip_redundant_italics_nodes: for ANY input list the italics nodes of the output alternate
+    ON, OFF, ON, ... beginning with ON, and the meaning is preserved"""
+    p, inp = new_input()
 
     def inv(S):
-        out = as_seq(S.local("new_collection"))
+        instantiate(S, inp)
+        out, pre = as_seq(S.local("new_collection")), prefix(inp.t, S.i)
         st = heap.code_of(S.local("state"))          # -1 None, 0 False, 1 True
-        if S.havoc_locals is not None and S.i_is_successor:
-            S.p.assume(snoc(as_seq(S.havoc_locals["new_collection"]), inp.t[S.i - 1]))
-        return [("output_alternates", ALT(out) != BAD),
-                ("state_tracks_the_automaton", z3.If(st == 1, ALT(out) == Q1, ALT(out) == Q0))]
-    c.interp.loop_hooks[("pycaption.scc.specialized_collections:_skip_redundant_italics_nodes", 1)] = loop_rule(
+        return same_meaning(out, pre) + [
+            ("output_alternates", ALT(out) != BAD),
+            ("state_tracks_the_automaton", z3.If(st == 1, z3.And(ALT(out) == Q1, LAST(pre) == 1),
+                                                 z3.And(ALT(out) == Q0, LAST(pre) == 0)))]
+    c.interp.loop_hooks[(MOD + "_skip_redundant_italics_nodes", 1)] = loop_rule(
         "alternate.loop", inv, locals_={"new_collection": ("seq", _InstructionNode), "state": ("obool", None)})
     r = c.call(SC._skip_redundant_italics_nodes, inp, compare=False)
+    finish(p, inp)
     c.ensure("italics_nodes_alternate_starting_with_on", ALT(as_seq(r)) != BAD)
+    c.ensure("same_text_is_italic", M(as_seq(r)) == M(inp.t))
+    c.ensure("same_final_italics_state", LAST(as_seq(r)) == LAST(inp.t))
+
+
+def close_before_repositioning(c):
+    """_close_italics_before_repositioning: given alternating italics nodes, the output never
+    repositions while italics are open; meaning preserved; never dereferences a missing ON node"""
+    p, inp = new_input()
+
+    def inv(S):
+        instantiate(S, inp)
+        out, pre = as_seq(S.local("new_collection")), prefix(inp.t, S.i)
+        on = zb(S.local("italics_on"))
+        lastn = heap.code_of(S.local("last_italics_on_node"))
+        good = ALT(pre) != BAD
+        return [("segments_closed", z3.Implies(good, z3.And(SEG(out) != BAD, on == (ALT(pre) == Q1), (SEG(out) == Q1) == on,
+                                                            LAST(out) == LAST(pre), M(out) == M(pre)))),
+                ("on_node_remembered", z3.Implies(on, lastn != NONE_REF))]
+    c.interp.loop_hooks[(MOD + "_close_italics_before_repositioning", 1)] = loop_rule(
+        "reposition.loop", inv, locals_={"new_collection": ("seq", _InstructionNode), "italics_on": ("bool", None),
+                                         "last_italics_on_node": ("oref", _InstructionNode)})
+    r = c.call(SC._close_italics_before_repositioning, inp, compare=False)
+    finish(p, inp)
+    pre_ok = ALT(inp.t) != BAD
+    out = as_seq(r)
+    c.ensure("no_repositioning_while_italics_open", z3.Implies(pre_ok, SEG(out) != BAD))
+    c.ensure("same_text_is_italic", z3.Implies(pre_ok, M(out) == M(inp.t)))
+
+
+def ensure_final_closes(c):
+    """_ensure_final_italics_node_closes: given well-formed segments the output ends closed"""
+    p, inp = new_input()
+
+    def inv(S):
+        instantiate(S, inp)
+        pre = prefix(inp.t, S.i)
+        on = zb(S.local("italics_on"))
+        lastn = heap.code_of(S.local("last_italics_on_node"))
+        return [("flag_tracks_the_automaton", z3.Implies(SEG(pre) != BAD, on == (SEG(pre) == Q1))),
+                ("on_node_remembered", z3.Implies(on, lastn != NONE_REF))]
+    c.interp.loop_hooks[(MOD + "_ensure_final_italics_node_closes", 1)] = loop_rule(
+        "final_close.loop", inv, locals_={"italics_on": ("bool", None), "last_italics_on_node": ("oref", _InstructionNode)})
+    r = c.call(SC._ensure_final_italics_node_closes, inp, compare=False)
+    finish(p, inp)
+    out = as_seq(r)
+    c.ensure("ends_closed", z3.Implies(SEG(inp.t) != BAD, SEG(out) == Q0))
+    c.ensure("same_text_is_italic", z3.Implies(SEG(inp.t) != BAD, M(out) == M(inp.t)))
+
+
+def _noop_inv(inp, pending_is_on):
+    """shared invariant of the two no-op removal passes: `to_commit` is a pending ON (OFF) node that
+    is not in the output yet"""
+    def inv(S):
+        instantiate(S, inp)
+        out, pre = as_seq(S.local("new_collection")), prefix(inp.t, S.i)
+        pend = heap.code_of(S.local("to_commit")) != NONE_REF
+        good = SEG(pre) != BAD
+        if pending_is_on:
+            with_p = z3.And(SEG(pre) == Q1, SEG(out) == Q0, LAST(out) == 0, ty(S.p, heap.code_of(S.local("to_commit"))) == ON)
+        else:
+            with_p = z3.And(SEG(pre) == Q0, SEG(out) == Q1, LAST(out) == 1, ty(S.p, heap.code_of(S.local("to_commit"))) == OFF)
+        return [("pending_node_accounted", z3.Implies(good, z3.And(M(out) == M(pre),
+                                                                   z3.If(pend, with_p, z3.And(SEG(out) == SEG(pre), LAST(out) == LAST(pre))))))]
+    return inv
+
+
+def remove_on_off(c):
+    """_remove_noop_on_off_italics: removing ON immediately followed by OFF keeps segments and meaning"""
+    p, inp = new_input()
+    c.interp.loop_hooks[(MOD + "_remove_noop_on_off_italics", 1)] = loop_rule(
+        "on_off.loop", _noop_inv(inp, True), locals_={"new_collection": ("seq", _InstructionNode), "to_commit": ("oref", _InstructionNode)})
+    r = c.call(SC._remove_noop_on_off_italics, inp, compare=False)
+    finish(p, inp)
+    out = as_seq(r)
+    pre_ok = SEG(inp.t) == Q0
+    c.ensure("still_closed", z3.Implies(pre_ok, SEG(out) == Q0))
+    c.ensure("same_text_is_italic", z3.Implies(pre_ok, M(out) == M(inp.t)))
+
+
+def remove_off_on(c):
+    """_remove_noon_off_on_italics: removing OFF immediately followed by ON keeps segments and meaning"""
+    p, inp = new_input()
+    c.interp.loop_hooks[(MOD + "_remove_noon_off_on_italics", 1)] = loop_rule(
+        "off_on.loop", _noop_inv(inp, False), locals_={"new_collection": ("seq", _InstructionNode), "to_commit": ("oref", _InstructionNode)})
+    r = c.call(SC._remove_noon_off_on_italics, inp, compare=False)
+    finish(p, inp)
+    out = as_seq(r)
+    pre_ok = SEG(inp.t) == Q0
+    c.ensure("still_closed", z3.Implies(pre_ok, SEG(out) == Q0))
+    c.ensure("same_text_is_italic", z3.Implies(pre_ok, M(out) == M(inp.t)))
+
+
+# --------------------------------------------------------------------------------------- composition
+
+def _callee(name, pre, post, same_list=False):
+    """the contract of a pass as seen from a call site: `pre` is an obligation of the caller,
+    `post` is all the caller learns about the result"""
+    def h(interp, fn, args, kwargs):
+        p = cur()
+        inp = as_seq(args[0])
+        if pre is not None:
+            p.require(f"call_{name}/precondition", pre(inp), kind="call")
+        if same_list:
+            return args[0]
+        out = SymList(z3.Const(p._name(f"out_{name}"), SEQ), _InstructionNode)
+        p.assume(post(inp, out.t))
+        p.assume(lemma(out.t))
+        return out
+    return h
+
+
+CALLEE_CONTRACTS = {
+    MOD + "_skip_initial_italics_off_nodes": _callee(
+        "skip_initial_off", None, lambda i, o: z3.And(M(o) == M(i), LAST(o) == LAST(i))),
+    MOD + "_skip_empty_text_nodes": _callee(
+        "skip_empty_text", None, lambda i, o: z3.And(M(o) == M(i), LAST(o) == LAST(i))),
+    MOD + "_skip_redundant_italics_nodes": _callee(
+        "skip_redundant", None, lambda i, o: z3.And(ALT(o) != BAD, M(o) == M(i), LAST(o) == LAST(i))),
+    MOD + "_close_italics_before_repositioning": _callee(
+        "close_before_repositioning", lambda i: ALT(i) != BAD, lambda i, o: z3.And(SEG(o) != BAD, M(o) == M(i))),
+    MOD + "_ensure_final_italics_node_closes": _callee(
+        "ensure_final_closes", lambda i: SEG(i) != BAD, lambda i, o: z3.And(SEG(o) == Q0, M(o) == M(i))),
+    MOD + "_remove_noop_on_off_italics": _callee(
+        "remove_on_off", lambda i: SEG(i) == Q0, lambda i, o: z3.And(SEG(o) == Q0, M(o) == M(i))),
+    MOD + "_remove_noon_off_on_italics": _callee(
+        "remove_off_on", lambda i: SEG(i) == Q0, lambda i, o: z3.And(SEG(o) == Q0, M(o) == M(i))),
+    # the last pass returns the list it was given and stores only to .text (frame obligation below)
+    MOD + "_remove_spaces_at_end_of_the_line": _callee("remove_spaces", None, None, same_list=True),
+}
+
+
+def format_italics(c):
+    """_format_italics, from the contracts of its passes only: for EVERY instruction list the result
+    has properly closed, alternating italics that never span a repositioning, and exactly the
+    non-empty text nodes sent while italics were on are italic"""
+    p, inp = new_input()
+    r = c.call(SC._format_italics, inp, compare=False)
+    out = as_seq(r)
+    c.ensure("italics_closed_alternating_never_across_repositioning", SEG(out) == Q0)
+    c.ensure("same_text_is_italic", M(out) == M(inp.t))
+
+
+def open_iff_last_on(c):
+    """the lemma about the folds used by every contract above, by induction on snoc:
+    base  lemma([])   and   step  lemma(s) => lemma(s + [x])   for arbitrary s, x"""
+    p = cur()
+    base_axioms(p)
+    s = z3.Const("s", SEQ)
+    x = z3.Int("x")
+    p.assume(snoc(p, s, x))
+    c.ensure("base", lemma(EMPTY))
+    c.ensure("step", z3.Implies(lemma(s), lemma(z3.Concat(s, z3.Unit(x)))))
+
+
+def frame_obligations(g):
+    """syntactic obligations the proofs rely on"""
+    import inspect
+    src = inspect.getsource(SC)
+    tree = ast.parse(src)
+    # 1. _InstructionNode._type is assigned only in _InstructionNode.__init__
+    bad = []
+
+    def scan(node, owner, fname):
+        for ch in ast.iter_child_nodes(node):
+            if isinstance(ch, ast.ClassDef):
+                scan(ch, ch.name, fname)
+            elif isinstance(ch, (ast.FunctionDef, ast.AsyncFunctionDef)):
+                scan(ch, owner, ch.name if fname is None else fname)
+            else:
+                if isinstance(ch, ast.Attribute) and isinstance(ch.ctx, (ast.Store, ast.Del)) and ch.attr == "_type":
+                    if not (owner == "_InstructionNode" and fname == "__init__"):
+                        bad.append(f"{owner}.{fname}:{ch.lineno}")
+                scan(ch, owner, fname)
+    scan(tree, "<module>", None)
+    also = [n.lineno for n in ast.walk(tree) if isinstance(n, ast.Call) and isinstance(n.func, ast.Name)
+            and n.func.id in ("setattr", "delattr")]
+    g.check("node_type_assigned_only_by_the_constructor", not bad and not also, {"stores": sorted(set(bad)), "setattr_calls": also})
+    # 2. _remove_spaces_at_end_of_the_line returns its argument, stores only to .text, does not
+    #    rebind or mutate the list spine
+    fn = next(n for n in tree.body if isinstance(n, ast.FunctionDef) and n.name == "_remove_spaces_at_end_of_the_line")
+    param = fn.args.args[0].arg
+    stores = {n.attr for n in ast.walk(fn) if isinstance(n, ast.Attribute) and isinstance(n.ctx, ast.Store)}
+    rebinds = [n.lineno for n in ast.walk(fn) if isinstance(n, ast.Name) and isinstance(n.ctx, ast.Store) and n.id == param]
+    sub_stores = [n.lineno for n in ast.walk(fn) if isinstance(n, ast.Subscript) and isinstance(n.ctx, (ast.Store, ast.Del))]
+    mut_calls = [n.lineno for n in ast.walk(fn) if isinstance(n, ast.Call) and isinstance(n.func, ast.Attribute)
+                 and n.func.attr in ("append", "extend", "insert", "pop", "remove", "clear", "sort", "reverse", "__setitem__", "__delitem__")]
+    returns = [n for n in ast.walk(fn) if isinstance(n, ast.Return)]
+    ok = stores <= {"text"} and not rebinds and not sub_stores and not mut_calls and returns and \
+        all(isinstance(r.value, ast.Name) and r.value.id == param for r in returns)
+    g.check("last_pass_returns_its_argument_and_stores_only_text", ok,
+            {"stores": sorted(stores), "rebinds": rebinds, "subscript_stores": sub_stores, "mutating_calls": mut_calls})
+
+
+PASSES = [
+    ("scc._skip_initial_italics_off_nodes", skip_initial_off, SC._skip_initial_italics_off_nodes),
+    ("scc._skip_empty_text_nodes", skip_empty_text, SC._skip_empty_text_nodes),
+    ("scc._skip_redundant_italics_nodes", skip_redundant, SC._skip_redundant_italics_nodes),
+    ("scc._close_italics_before_repositioning", close_before_repositioning, SC._close_italics_before_repositioning),
+    ("scc._ensure_final_italics_node_closes", ensure_final_closes, SC._ensure_final_italics_node_closes),
+    ("scc._remove_noop_on_off_italics", remove_on_off, SC._remove_noop_on_off_italics),
+    ("scc._remove_noon_off_on_italics", remove_off_on, SC._remove_noon_off_on_italics),
+]
 
 
 def prove_passes(ctx):
-    ctx.prove("scc._skip_redundant_italics_nodes", skip_redundant, functions=[SC._skip_redundant_italics_nodes],
-              setup_interp=setup, crosscheck=False)
+    for name, contract, fn in PASSES:
+        ctx.prove(name, contract, functions=[fn], setup_interp=setup, crosscheck=False)
+    ctx.prove("scc.italics_folds/open_iff_last_on", open_iff_last_on, crosscheck=False)
+    ctx.prove("scc._format_italics", format_italics, functions=[SC._format_italics, SC._remove_noop_italics],
+              contracts=CALLEE_CONTRACTS, setup_interp=setup, crosscheck=False)
+    ctx.frame("scc.italics_frames", frame_obligations)
+    ctx.assume("italics passes: nodes are heap objects whose _type is immutable (frame obligation "
+               "node_type_assigned_only_by_the_constructor); the folds LAST / ALT / SEG / M are defined by snoc recursion; "
+               "two sequence-theory lemma instances are added as axioms: prefix(s,i+1) = prefix(s,i)+[s[i]] and prefix(s,len s) = s; "
+               "emptiness of a text is an uninterpreted predicate of the text's identity")
